@@ -195,9 +195,18 @@ def t2_borrow_scope(ctx, fx, s, g=None, depth=3):
     """the closure that borrows the anchor store calls nothing that could borrow it again or run user code; a call to a
     private anchor_store helper is followed (the helper must satisfy the same condition)"""
     g = g or s.f
+    # no stored value dies under the borrow: dropping the last owner of a user value runs its Drop, which may call back
+    # into the crate (from_str starts by borrowing the same cell).  Stored values die in drop terminators of the state's
+    # own types or of an Option<Rc / Arc<dyn Any>> (what `insert` returns), and inside clear / remove / retain / drain.
+    for b in g.live_blocks:
+        t = g.blocks[b]["term"]
+        if t["k"] == "drop" and re.search(r"anchor_store::Anchor(State|Store)|^std::option::Option<std::(rc::Rc|sync::Arc)<dyn|HashMap<usize, std::(rc::Rc|sync::Arc)<dyn", t.get("pty", "")) and not re.search(r"Ref(Mut)?<", t.get("pty", "")):
+            return False
     for b, t in g.calls():
         c = fx.callee(t)
         if "LocalKey::with" in c:
+            return False
+        if last_seg(c) in ("clear", "remove", "retain", "drain", "remove_entry", "truncate") and re.search(r"HashMap|Vec", c) and any("dyn std::any::Any" in str(a) for a in (t["f"].get("args") or [])):
             return False
         if c.startswith("anchor_store::"):
             h = fx.local_callee(t)
